@@ -22,6 +22,8 @@ func runC11(r *engine.Run) {
 	r.Rule("ORDER-stage", "in DeleteNodes the keys handed to Delete derive only from the `deleted` set; the staged set (tempDeleted) is moved into `deleted` only after that batch and after `deleted` was cleared (two-phase deletion)")
 	r.Rule("AGREE-purge", "every trie field from which DeleteNodes (now or at a later pass) feeds storage deletes is purged of a hash that a commit re-creates: the created-hash handler must remove the hash from `deleted` and from `tempDeleted`")
 	r.Rule("WHO-dirtyclear", "the dirty flag doubles as 'not saved yet' for Commit, so stores of dirty=false may be reachable only from entry points that save the node (Commit) or that work on freshly decoded nodes (Deserialize, VerifyBlockProof), not from read-only entry points")
+	r.Rule("DOM-unchanged", "in commit every send of a node's previous hash on the deleted channel is reached only when bytes.Equal(previous hash, the node's new Hash()) tested false: a dirty node that hashes as before is the live node and must not be collected")
+	r.Rule("REF-shared", "storage is addressed, and garbage is collected, by node hash; that is sound only if equal content at two positions cannot be one stored node: some node field set by insert must derive from the walk's prefix (a position component in the hashed state). Otherwise deleting or replacing content at one position collects the node another position still uses")
 	r.NotDec = append(r.NotDec, "that a reopened trie is observationally identical (value-level)", "atomicity of the storage engine's batches (the atomic unit by the property's quantifier)")
 	domSave(r)
 	domCreated(r, "DOM-created")
@@ -30,6 +32,8 @@ func runC11(r *engine.Run) {
 	orderStage(r)
 	agreePurge(r)
 	whoDirtyClear(r)
+	domUnchanged(r, "DOM-unchanged")
+	refShared(r, "REF-shared")
 }
 
 func domSave(r *engine.Run) {
@@ -404,4 +408,182 @@ func domCreated(r *engine.Run, rule string) {
 	if n < 4 {
 		r.Anchor(rule, fmt.Errorf("unresolved anchor: %d save-then-return paths in commit, 4 confirmed by reading", n))
 	}
+}
+
+// domUnchanged: in commit the previous hash of a node is scheduled for
+// collection only when it differs from the node's new hash: a node that is
+// dirty but hashes as before (a value changed and changed back between two
+// commits) is the live node, and collecting its hash deletes it.
+func domUnchanged(r *engine.Run, rule string) {
+	f := wfn(r, rule, "commit")
+	if f == nil {
+		return
+	}
+	var deleteCh ssa.Value
+	for _, p := range f.Params {
+		if p.Name() == "deleteChan" {
+			deleteCh = p
+		}
+	}
+	if deleteCh == nil {
+		r.Anchor(rule, fmt.Errorf("unresolved anchor: deleted channel of %s", fn(f)))
+		return
+	}
+	n := 0
+	o := ord{}
+	engine.Instrs(f, func(in ssa.Instruction) {
+		s, ok := in.(*ssa.Send)
+		if !ok || s.Chan != deleteCh {
+			return
+		}
+		n++
+		good := false
+		engine.Instrs(f, func(i2 ssa.Instruction) {
+			c, ok := i2.(*ssa.Call)
+			if !ok || !extCalleeIs(c, "bytes", "", "Equal") {
+				return
+			}
+			a, b := stripCT(c.Call.Args[0]), stripCT(c.Call.Args[1])
+			if a != s.X && b != s.X {
+				return
+			}
+			other := a
+			if a == s.X {
+				other = b
+			}
+			if hc, isCall := other.(*ssa.Call); !isCall {
+				return
+			} else if _, isHash := engine.IsMethodCall(hc, "Hash"); !isHash {
+				return
+			}
+			if truthAt(f, s.Block(), c, false) {
+				good = true
+			}
+		})
+		r.Check(good, rule, o.next(fn(f)+"|schedule previous hash"), r.P.Pos(s.Pos()), "reached only when bytes.Equal(previous hash, new Hash()) tested false",
+			"the previous hash of a saved node is scheduled for collection without testing that the hash changed: a node that is dirty but hashes as before is live, and two collection passes later it is deleted from storage")
+	})
+	if n < 3 {
+		r.Anchor(rule, fmt.Errorf("unresolved anchor: %d sends on the deleted channel in commit", n))
+	}
+}
+
+// refShared: storage is addressed by node hash and garbage collection deletes by
+// hash. Two positions holding equal content are then ONE stored node, so
+// collecting the hash when one position goes away is only sound if equal content
+// at different positions cannot hash equally (a position component - something
+// derived from the walk's prefix - is part of the node state that is hashed) or
+// the collection is reference-guarded. The rule checks the first: some store to
+// a field of a trie node in insert derives from the prefix parameter.
+func refShared(r *engine.Run, rule string) {
+	f := wfn(r, rule, "insert")
+	if f == nil {
+		return
+	}
+	var prefix ssa.Value
+	for _, p := range f.Params {
+		if p.Name() == "prefix" {
+			prefix = p
+		}
+	}
+	if prefix == nil {
+		r.Anchor(rule, fmt.Errorf("unresolved anchor: prefix parameter of %s", fn(f)))
+		return
+	}
+	// hash-keyed collection exists?
+	sched := 0
+	for _, g := range funcsOfPkg(r, pkgWMPT) {
+		engine.Instrs(g, func(in ssa.Instruction) {
+			if st, ok := in.(*ssa.Store); ok {
+				if fld := engine.FieldOf(st.Addr); fld != nil && fld.Name() == "tempDeleted" {
+					if c, ok := st.Val.(*ssa.Call); ok {
+						if b, ok := c.Call.Value.(*ssa.Builtin); ok && b.Name() == "append" {
+							sched++
+						}
+					}
+				}
+			}
+		})
+	}
+	if sched == 0 {
+		r.OK(rule, "wmpt|hash-keyed collection", r.P.Pos(f.Pos()), "no hash is scheduled for collection")
+		return
+	}
+	positional := ""
+	engine.Instrs(f, func(in ssa.Instruction) {
+		st, ok := in.(*ssa.Store)
+		if !ok {
+			return
+		}
+		fa, ok := st.Addr.(*ssa.FieldAddr)
+		if !ok {
+			return
+		}
+		nm := namedOf(fa.X.Type())
+		if nm == nil || !strings.HasSuffix(nm.Obj().Name(), "Node") {
+			return
+		}
+		if derivesFromBytes(st.Val, prefix) {
+			positional = nm.Obj().Name() + "." + engine.FieldOf(fa).Name()
+		}
+	})
+	// also composite literals / constructor arguments built from the prefix
+	engine.Instrs(f, func(in ssa.Instruction) {
+		st, ok := in.(*ssa.Store)
+		if !ok || positional != "" {
+			return
+		}
+		if fa, ok := st.Addr.(*ssa.FieldAddr); ok {
+			if al, ok := fa.X.(*ssa.Alloc); ok {
+				if nm := namedOf(al.Type()); nm != nil && strings.HasSuffix(nm.Obj().Name(), "Node") && derivesFromBytes(st.Val, prefix) {
+					positional = nm.Obj().Name() + "." + engine.FieldOf(fa).Name()
+				}
+			}
+		}
+	})
+	r.Check(positional != "", rule, "wmpt.WeightedMerkleTrie|content-only node hashes with hash-keyed collection", r.P.Pos(f.Pos()),
+		"node state carries the position ("+positional+")",
+		fmt.Sprintf("nodes are stored and collected by hash (%d scheduling sites) while no node field ever derives from the walk's prefix: equal content at two positions is one stored node, and deleting or replacing it at one position collects it for both", sched))
+}
+
+// derivesFromBytes: v is computed from target by slicing, appending, copying or
+// conversion only (not through a call that merely received it).
+func derivesFromBytes(v, target ssa.Value) bool {
+	seen := map[ssa.Value]bool{}
+	var walk func(x ssa.Value) bool
+	walk = func(x ssa.Value) bool {
+		if x == nil || seen[x] {
+			return false
+		}
+		seen[x] = true
+		if x == target {
+			return true
+		}
+		switch y := x.(type) {
+		case *ssa.Slice:
+			return walk(y.X)
+		case *ssa.ChangeType:
+			return walk(y.X)
+		case *ssa.Convert:
+			return walk(y.X)
+		case *ssa.MakeInterface:
+			return walk(y.X)
+		case *ssa.Phi:
+			for _, e := range y.Edges {
+				if walk(e) {
+					return true
+				}
+			}
+		case *ssa.Call:
+			if b, ok := y.Call.Value.(*ssa.Builtin); ok && b.Name() == "append" {
+				for _, a := range y.Call.Args {
+					if walk(a) {
+						return true
+					}
+				}
+			}
+		}
+		return false
+	}
+	return walk(v)
 }
